@@ -13,7 +13,8 @@ ASSUMPTIONS = ['the frame given carries the declared shape (C07 covers deviation
 def jobs(tier, seed):
     out = []
     top = 3 if tier == 'quick' else 5
-    shapes = [(2, 1, 1), (2, 1, 2)] if tier == 'quick' else [(2, 1, 1), (2, 1, 2), (3, 2, 2), (1, 0, 1), (0, 2, 1)]
+    # every shape up to 2 points x 2 channels x 2 sub-frames (thorough: up to 3 x 2 x 3)
+    shapes = [(p, c, s) for p in range(3 if tier == 'quick' else 4) for c in range(3) for s in ((1, 2) if tier == 'quick' else (1, 2, 3)) if (p or c) and not (c == 0 and s > 1)]
     for (P, C, S) in shapes:
         for n in range(top + 1):
             for mode in range(8):
